@@ -42,10 +42,10 @@ the document, to files of cap / cap+1 / 3 MiB, to /dev/zero, dangling, looping; 
 devices /dev/zero, /dev/urandom, /dev/full, /dev/null (the worker's address space limited to what it has + 1 GiB while one
 is loaded).  The loader modules' `open` hands out the real file object behind a recorder (`_spy_open`): every call that
 takes octets out of the file is recorded with its SIZE ARGUMENT and the amount handed out; the FIFO's feeder counts what the
-pipe accepted.  Oracle, from "larger than 1 MiB is refused unread … never exhausts memory … terminates promptly": where
-fstat does not tell what a read delivers (FIFO, growing file, device) no read may be issued without a size argument or with
-one above the cap (+1); on EVERY load the total taken out of the file stays <= cap + 1; a FIFO is relieved of at most
-cap + 1 + one pipe buffer (+ 64 KiB read-ahead); the size the loader's own fstat saw > cap means refused unread; the outcome
+pipe accepted.  Oracle, from "larger than 1 MiB is refused unread … never exhausts memory … terminates promptly": on EVERY
+load the total taken out of the file stays <= cap + 1 (a read call without a size argument, or with one above the cap, that
+takes more is reported as the unbounded read it is; one that met no more than the cap on offer is counted, not reported);
+a FIFO is relieved of at most cap + 1 + one pipe buffer (+ 64 KiB read-ahead); the size the loader's own fstat saw > cap means refused unread; the outcome
 is an object that re-validates or a clean error within the budget, never MemoryError.  The model's file oracle gets the size
 fstat reported and the first cap+1 octets on offer (`offered_prefix`) and must give the same outcome and read / not read.
 """
@@ -87,8 +87,9 @@ ASSUMPTIONS = [
     "octets taken by other means (os.read on the descriptor, a second open elsewhere) are not in the record of read calls but still show in what the FIFO's feeder saw accepted and in the "
     "memory / time the devices cost",
     "a FIFO whose other end stays open and silent blocks any reader for ever: the feeder always closes after its offer (a stalled peer is the environment, not a byte string offered as a file)",
-    "the bound on what may leave a FIFO is cap + 1 + the pipe's capacity (F_GETPIPE_SZ, 64 KiB here) + 64 KiB for a buffered reader's read-ahead; an unbounded read on a quiescent regular "
-    "file that passed the size gate is counted (read-call:unbounded-on-a-quiescent-regular-file) but is no failing input: it delivers at most the size checked",
+    "the bound on what may leave a FIFO is cap + 1 + the pipe's capacity (F_GETPIPE_SZ, 64 KiB here) + 64 KiB for a buffered reader's read-ahead; an unbounded read call that met "
+    "no more than the cap on offer (a quiescent regular file that passed the size gate, a FIFO with a small document) is counted (read-call:unbounded-but-no-more-than-the-cap-was-on-offer) "
+    "but is no failing input: nothing the property forbids happened",
 ]
 TRUSTED = ["the watchdog pool of corr_C13 (timing, kill/restart)", "Python's `re` as the reference for the three matchers (regex_diff)"]
 
@@ -1349,7 +1350,7 @@ def run(tier: str, driver_ok: bool) -> Result:
         "x log handler off / on (outcome must equal that under the short name without logging); "
         "the file object behind the name (real files): FIFO fed by a thread with document + filler up to 8 MiB (cap-1 / cap / cap+1 lattice), files growing / shrinking between "
         "fstat and read or before fstat, symlinks (1-2 hops; to cap / cap+1 / 3 MiB files, to /dev/zero, dangling, loop), directory, missing, /dev/zero, /dev/urandom, /dev/full, /dev/null "
-        "under an address-space limit — with the size argument and yield of every read call recorded (no unbounded read where fstat does not tell the amount; total taken <= cap+1; "
+        "under an address-space limit — with the size argument and yield of every read call recorded (total taken <= cap+1 on every load, an unbounded read call that takes more is named; "
         "FIFO relieved of <= cap+1 + one pipe buffer); a case is non-trivial when its text is new"
     )
     r = lib.rng("C13")
@@ -1878,7 +1879,7 @@ def _short(o: Any) -> Any:
 def replay(obj: dict[str, Any]) -> Any:
     v = obj.get("violation") or obj.get("disagreement") or {}
     c = v.get("case") or {}
-    out: dict[str, Any] = {"case": {k: (x if not isinstance(x, str) or len(x) < 400 else x[:400] + "...") for k, x in c.items()}, "recorded": {k: v.get(k) for k in ("what", "key", "impl", "model")}}
+    out: dict[str, Any] = {"case": {k: (x if not isinstance(x, str) or len(x) < 400 else x[:400] + "...") for k, x in c.items()}, "recorded": {k: v.get(k) for k in ("what", "key", "impl", "model", "reads", "taken", "fstat_size", "accepted_by_pipe", "allowed") if k in v}}
     if "text" in c and not c["text"].endswith(" chars]"):
         p = {k: c[k] for k in ("kind", "text", "recurse") if k in c}
         out["model_now"] = _short(drive([model_line(p)])[0])
